@@ -138,6 +138,9 @@ func concretiseFrames(s *framesScenario, rng *rand.Rand, table *Table) [][]byte 
 			inner = terminatorPayload(s.Proto, f.Body)
 		}
 		payload := inner
+		if compressed && len(inner) == 0 && f.Len > 0 {
+			payload = refcodec.Gzip(nil) // the zero message, really compressed
+		}
 		if compressed && len(inner) > 0 {
 			payload = refcodec.Gzip(inner)
 			if f.Corrupt {
